@@ -561,7 +561,7 @@ example : makeDynamicIndex [some 2, none, some 3, none] = [0,0,1,1,2] ∧
 theorem mdarray_access_in_bounds (m : Mapping) (v : Int) (I : Arr) (h : Valid m.rank m.ext I) :
     (Md.new m v).get? I = some v ∧ m.offset I < (Md.new m v).data.length := by
   have hr := offset_in_range m I h
-  simp only [Md.new, Md.get?, List.length_replicate]
+  simp only [Md.new, Md.get?, List.length_replicate, Gen.mdarray_from_mapping_csize]
   refine ⟨?_, hr⟩
   rw [List.getElem?_replicate]
   simp [hr]
@@ -611,7 +611,7 @@ theorem md_size_consistent (n : Nat) (E : Arr) :
     mdSize n E = prodFrom E 0 n ∧ mdSize n E = product n E ∧
     (Md.new ⟨.left, n, E, fun _ => 0⟩).data.length = mdSize n E ∧ (Md.new ⟨.right, n, E, fun _ => 0⟩).data.length = mdSize n E := by
   refine ⟨mdSize_eq n E, by rw [mdSize_eq, product_eq], ?_, ?_⟩ <;>
-    simp [Md.new, Mapping.requiredSpan, mdSize_eq, product_eq]
+    simp [Md.new, Mapping.requiredSpan, mdSize_eq, product_eq, Gen.mdarray_from_mapping_csize]
 
 example : (Md.new ⟨.left, 2, arr [2,3], fun _ => 0⟩ 7).get? (arr [1,2]) = some 7 ∧
     ((Md.new ⟨.left, 2, arr [2,3], fun _ => 0⟩ 7).set (arr [1,2]) 9).data = [7,7,7,7,7,9] ∧
@@ -621,8 +621,8 @@ example : (Md.new ⟨.left, 2, arr [2,3], fun _ => 0⟩ 7).get? (arr [1,2]) = so
     (the member initialisers as regenerated from mdarray.hh) is the required span of the mapping the array adopts, and
     both constructors build the same array -/
 theorem mdarray_from_view_alloc (m : Mapping) (other : View) :
-    mdarray_from_mdspan_csize m.requiredSpan other.map.requiredSpan (mdSize other.map.rank other.map.ext) = m.requiredSpan ∧
-    mdarray_from_mdspan_alloc_csize m.requiredSpan other.map.requiredSpan (mdSize other.map.rank other.map.ext) = m.requiredSpan ∧
+    Gen.mdarray_from_mdspan_csize m.requiredSpan other.map.requiredSpan (mdSize other.map.rank other.map.ext) = m.requiredSpan ∧
+    Gen.mdarray_from_mdspan_alloc_csize m.requiredSpan other.map.requiredSpan (mdSize other.map.rank other.map.ext) = m.requiredSpan ∧
     Md.fromViewAlloc m other = Md.fromView m other := ⟨rfl, rfl, rfl⟩
 
 /-- copies refer to equal elements, for ALL layout, accessor and stride choices: an array built from a view
@@ -712,6 +712,73 @@ theorem mdarray_from_mdspan_container (m : Mapping) (other : Md) :
     (m.lay ≠ .stride → other.map.rank = m.rank → (∀ k, k < m.rank → other.map.ext k = m.ext k) →
       (Md.fromMdspan m other).data.length = mdSize other.map.rank other.map.ext) :=
   mdarray_from_view_container m other.toView
+
+/-- second use of an array built from a view, for EVERY unique mapping (padded / permuted strides included): a later
+    write at a valid index `I` is read back at `I`, every other valid index `J` still holds the element the view yielded
+    there, and the container keeps exactly the required span -/
+theorem mdarray_from_view_then_write (m : Mapping) (hu : InjOn m) (other : View)
+    (hrank : other.map.rank = m.rank)
+    (hother : ∀ J, Valid m.rank m.ext J → ∃ v, other.get? J = some v)
+    (I J : Arr) (v : Int) (hI : Valid m.rank m.ext I) (hJ : Valid m.rank m.ext J) :
+    ((Md.fromView m other).set I v).get? I = some v ∧
+    ((∃ k, k < m.rank ∧ I k ≠ J k) → ((Md.fromView m other).set I v).get? J = other.get? J) ∧
+    ((Md.fromView m other).set I v).data.length = m.requiredSpan := by
+  obtain ⟨hlen, hmap, _, _⟩ := mdarray_from_view_container m other
+  have h := md_write_read_unique (Md.fromView m other) I J v (by rw [hmap]; exact hu) (by rw [hmap, hlen]; exact Nat.le_refl _)
+    (by rw [hmap]; exact hI) (by rw [hmap]; exact hJ)
+  refine ⟨h.1, fun hne => ?_, by rw [h.2.2, hlen]⟩
+  rw [h.2.1 (by rw [hmap]; exact hne)]
+  exact mdarray_from_view_elements m hu other hrank hother J hJ
+
+-- the padded array of the example above, then `a(0,1) = 99`: the neighbours and the padding entry are untouched
+example : ((Md.fromMdspan ⟨.stride, 2, arr [2,3], arr [4,1]⟩ ⟨⟨.stride, 2, arr [2,3], arr [4,1]⟩, [10,11,12,13,14,15,16]⟩).set
+    (arr [0,1]) 99).data = [10,99,12,0,14,15,16] := by decide
+
+/-- whole histories on one object (induction over the history): after ANY sequence of assignments at valid indices
+    through a view / array with a unique mapping over storage of at least `required_span_size()` elements, the mapping
+    and the storage size are unchanged and every valid index `J` reads the value of the LAST assignment made to `J`, or
+    its original element if `J` was never assigned — no assignment ever disturbs another index -/
+theorem md_history (a : Md) (hu : InjOn a.map) (hd : a.map.requiredSpan ≤ a.data.length)
+    (ws : List (List Nat × Int)) (hws : ∀ w, w ∈ ws → Valid a.map.rank a.map.ext (arr w.1))
+    (J : Arr) (hJ : Valid a.map.rank a.map.ext J) :
+    (a.writes ws).map = a.map ∧ (a.writes ws).data.length = a.data.length ∧
+    (a.writes ws).get? J = (match lastWrite a.map.rank J ws with | some v => some v | none => a.get? J) := by
+  refine ⟨Md.writes_map a ws, Md.writes_length a ws, ?_⟩
+  induction ws generalizing a with
+  | nil => rfl
+  | cons w ws ih =>
+    have hw := hws w (by simp)
+    have hstep := md_write_read_unique a (arr w.1) J w.2 hu hd hw hJ
+    have hmap : (a.set (arr w.1) w.2).map = a.map := rfl
+    have := ih (a.set (arr w.1) w.2) (by rw [hmap]; exact hu) (by rw [hmap, hstep.2.2]; exact hd)
+      (fun w' hw' => by rw [hmap]; exact hws w' (List.mem_cons_of_mem _ hw')) (by rw [hmap]; exact hJ)
+    rw [Md.writes, this, hmap]
+    simp only [lastWrite]
+    cases hl : lastWrite a.map.rank J ws with
+    | some v => rfl
+    | none =>
+      simp only
+      by_cases hag : (List.range a.map.rank).all (fun k => arr w.1 k == J k) = true
+      · rw [if_pos hag]
+        have hall : ∀ k, k < a.map.rank → arr w.1 k = J k := by
+          intro k hk
+          have := List.all_eq_true.mp hag k (List.mem_range.mpr hk)
+          exact beq_iff_eq.mp this
+        have hoff : a.map.offset (arr w.1) = a.map.offset J := Mapping.offset_congr a.map hall
+        have h1 := hstep.1
+        simp only [Md.get?, Md.set] at h1 ⊢
+        rw [← hoff]; exact h1
+      · rw [if_neg hag]
+        apply hstep.2.1
+        have : ¬ ∀ k, k ∈ List.range a.map.rank → (arr w.1 k == J k) = true := fun h => hag (List.all_eq_true.mpr h)
+        have ⟨k, hk⟩ := Classical.not_forall.mp this
+        have ⟨hk1, hk2⟩ := Classical.not_imp.mp hk
+        exact ⟨k, List.mem_range.mp hk1, fun h => hk2 (beq_iff_eq.mpr h)⟩
+
+-- a history on the padded 2 x 3 array (strides (4,1)): (0,1) is assigned twice, (1,2) once, (1,0) never
+example : ((Md.new ⟨.stride, 2, arr [2,3], arr [4,1]⟩ 7).writes [([0,1], 1), ([1,2], 2), ([0,1], 3)]).data = [7,3,7,7,7,7,2] ∧
+    lastWrite 2 (arr [0,1]) [([0,1], 1), ([1,2], 2), ([0,1], 3)] = some 3 ∧
+    lastWrite 2 (arr [1,0]) [([0,1], 1), ([1,2], 2), ([0,1], 3)] = none := by decide
 
 /-- conversions of views refer to equal elements: a view whose mapping was converted by any of the mapping
     constructors (`mdspan(const mdspan<…>&)`: same data handle, `mapping_type(other.mapping())`) reads, at every index
@@ -895,6 +962,99 @@ example : strideRight 3 (arr [2,1,3000000000]) 0 = 3000000000 ∧ strideRight 3 
     product 3 (arr [2,1,3000000000]) = 6000000000 ∧
     offsetRight 3 (arr [2,1,3000000000]) (arr [1,0,2999999999]) = 5999999999 ∧
     (Mapping.toStride ⟨.right, 3, arr [2,1,3000000000], fun _ => 0⟩).offset (arr [1,0,2999999999]) = 5999999999 := by decide
+
+/-! ## round four: `is_exhaustive()` of strided mappings -/
+
+/-- for a unique strided mapping (any rank, any extents, any strides): the required span is at least the number of index
+    tuples, and it EQUALS that number (the test `is_exhaustive()` performs) iff every offset below the span is hit by a
+    valid index tuple — by a pigeonhole argument against the column-major numbering of the index space -/
+theorem stride_exhaustive_iff_no_gaps (n : Nat) (E S : Arr)
+    (hu : ∀ I J, Valid n E I → Valid n E J → offsetStride n S I = offsetStride n S J → ∀ k, k < n → I k = J k) :
+    product n E ≤ requiredSpanStride n E S ∧
+    (requiredSpanStride n E S = product n E ↔
+      ∀ o, o < requiredSpanStride n E S → ∃ I, Valid n E I ∧ offsetStride n S I = o) := by
+  -- enumerate the index space by the column-major numbering
+  let T : Nat → Arr := fun q =>
+    if h : q < product n E then Classical.choose (left_bijective_onto_range n E q h) else fun _ => 0
+  have hT : ∀ q, q < product n E → Valid n E (T q) ∧ offsetLeft n E (T q) = q := by
+    intro q hq
+    have := Classical.choose_spec (left_bijective_onto_range n E q hq)
+    show Valid n E (if h : q < product n E then _ else _) ∧ offsetLeft n E (if h : q < product n E then _ else _) = q
+    rw [dif_pos hq]; exact this
+  let f : Nat → Nat := fun q => offsetStride n S (T q)
+  have hfr : ∀ q, q < product n E → f q < requiredSpanStride n E S :=
+    fun q hq => offset_in_range_stride n E S (T q) (hT q hq).1
+  have hfi : ∀ q q', q < product n E → q' < product n E → f q = f q' → q = q' := by
+    intro q q' hq hq' h
+    have hag := hu (T q) (T q') (hT q hq).1 (hT q' hq').1 h
+    have := offsetLeft_congr' n E hag
+    rw [(hT q hq).2, (hT q' hq').2] at this
+    exact this
+  have hPR : product n E ≤ requiredSpanStride n E S := pigeon _ _ f hfr hfi
+  refine ⟨hPR, ?_, ?_⟩
+  · intro heq o ho
+    rw [heq] at ho hfr
+    obtain ⟨q, hq, hfq⟩ := pigeon_surj (product n E) f hfr hfi o ho
+    exact ⟨T q, (hT q hq).1, hfq⟩
+  · intro hsurj
+    let U : Nat → Arr := fun o =>
+      if h : o < requiredSpanStride n E S then Classical.choose (hsurj o h) else fun _ => 0
+    have hU : ∀ o, o < requiredSpanStride n E S → Valid n E (U o) ∧ offsetStride n S (U o) = o := by
+      intro o ho
+      have := Classical.choose_spec (hsurj o ho)
+      show Valid n E (if h : o < requiredSpanStride n E S then _ else _) ∧
+        offsetStride n S (if h : o < requiredSpanStride n E S then _ else _) = o
+      rw [dif_pos ho]; exact this
+    have hRP : requiredSpanStride n E S ≤ product n E := by
+      apply pigeon _ _ (fun o => offsetLeft n E (U o))
+      · intro o ho; exact offset_in_range_left n E (U o) (hU o ho).1
+      · intro o o' ho ho' h
+        have hag := offset_injective_left n E (U o) (U o') (hU o ho).1 (hU o' ho').1 h
+        have := offsetStride_congr' n S hag
+        rw [(hU o ho).2, (hU o' ho').2] at this
+        exact this
+    omega
+
+
+/-- `is_exhaustive()` of a strided mapping decides exactly whether the mapping fills its range without gaps: for a
+    unique strided mapping over a non-empty index space, `is_exhaustive()` is true iff every offset below
+    `required_span_size()` is the image of a valid index tuple (as for layout_left / layout_right, which are always
+    exhaustive); and the required span is never below the number of index tuples -/
+theorem is_exhaustive_iff_no_gaps (m : Mapping) (hlay : m.lay = .stride) (hpos : ∀ k, k < m.rank → 0 < m.ext k)
+    (hu : InjOn m) :
+    (m.isExhaustive = true ↔ ∀ o, o < m.requiredSpan → ∃ I, Valid m.rank m.ext I ∧ m.offset I = o) ∧
+    mdSize m.rank m.ext ≤ m.requiredSpan := by
+  obtain ⟨lay, n, E, S⟩ := m
+  simp only at hlay hpos
+  subst hlay
+  have hu' : ∀ I J, Valid n E I → Valid n E J → offsetStride n S I = offsetStride n S J → ∀ k, k < n → I k = J k := hu
+  obtain ⟨hle, hiff⟩ := stride_exhaustive_iff_no_gaps n E S hu'
+  have hR : requiredSpanStride n E S = 1 + sumTo n (fun k => (E k - 1) * S k) := span_size_stride n E S hpos
+  have hex : (Mapping.isExhaustive ⟨.stride, n, E, S⟩ = true) ↔ requiredSpanStride n E S = product n E := by
+    show ((n == 0 || (decide (0 < requiredSpanStride n E S) && requiredSpanStride n E S == product n E)) = true) ↔ _
+    by_cases hn : n = 0
+    · subst hn
+      have h1 : requiredSpanStride 0 E S = 1 := by rw [hR]; rfl
+      have h2 : product 0 E = 1 := by rw [product_eq]; rfl
+      simp [h1, h2]
+    · have : (n == 0) = false := by simp [hn]
+      rw [this, Bool.false_or, Bool.and_eq_true, decide_eq_true_eq, beq_iff_eq]
+      constructor
+      · exact fun h => h.2
+      · exact fun h => ⟨by omega, h⟩
+  refine ⟨hex.trans hiff, ?_⟩
+  show mdSize n E ≤ requiredSpanStride n E S
+  rw [(md_size_consistent n E).2.1]
+  exact hle
+
+-- strides (4,1) over extents (2,3): span 7 > 6 index tuples, not exhaustive, offset 3 is a gap;
+-- strides (1,2) (column-major): exhaustive
+example : Mapping.isExhaustive ⟨.stride, 2, arr [2,3], arr [4,1]⟩ = false ∧
+    Mapping.requiredSpan ⟨.stride, 2, arr [2,3], arr [4,1]⟩ = 7 ∧
+    ((allTuples [2,3]).map fun t => Mapping.offset ⟨.stride, 2, arr [2,3], arr [4,1]⟩ (arr t)) = [0,1,2,4,5,6] ∧
+    Mapping.isExhaustive ⟨.stride, 2, arr [2,3], arr [1,2]⟩ = true ∧
+    ((allTuples [2,3]).map fun t => Mapping.offset ⟨.stride, 2, arr [2,3], arr [1,2]⟩ (arr t)) = [0,2,4,1,3,5] := by decide
+
 
 /-! ## span sub-views -/
 
